@@ -1046,7 +1046,9 @@ impl FixtureDatabase {
                         if decorators::is_usefixtures_decorator(decorator) {
                             return Some(CompletionContext::UsefixturesDecorator);
                         }
-                        if decorators::is_parametrize_decorator(decorator) {
+                        if decorators::is_parametrize_decorator(decorator)
+                            && decorators::has_indirect_keyword(decorator)
+                        {
                             return Some(CompletionContext::ParametrizeIndirect);
                         }
                     }
